@@ -41,7 +41,7 @@ def _known(idpart):
 def plan(tier, seed, searching):
     dargs = ["--strict-routed"] if _known("shortseg") else []
     steps = [dict(hargs=["--seed", str(seed), "--tier", tier, "--scale", "8" if searching else "1"], dargs=dargs)]
-    if _known("edgeless"):    # peel() on a graph without edges: heap-buffer-overflow in NodeBuckets::takeLeaves
+    if True:                  # peel() on a graph without edges: was a heap-buffer-overflow in NodeBuckets::takeLeaves; fixed in /repo 1ba969a, now always checked strictly
         steps.append(dict(hargs=["--seed", str(seed), "--tier", tier, "--mode", "edgeless"], label="finding-edgeless"))
     if _known("shortseg"):    # planarise: route segment shorter than the event tolerance -> spurious crossing node
         steps.append(dict(hargs=["--seed", str(seed), "--tier", tier, "--mode", "shortseg"], label="finding-shortseg"))
